@@ -465,6 +465,9 @@ type reqDesc struct {
 	Accept []string          `json:"accept"` // one entry per Accept header line; nil = no Accept header
 	Extra  map[string]string `json:"extra,omitempty"`
 	Remote string            `json:"remote"`
+	// state of the request context while the failure is handled: "" live | "cancelled" (before the request is
+	// served: the client is gone) | "cancelled-during" (while the pipeline runs) | "deadline" (deadline exceeded)
+	Ctx string `json:"context,omitempty"`
 }
 
 type mech struct {
@@ -600,6 +603,11 @@ func genReq(r *vf.Rand) reqDesc {
 		rq.Extra[e[0]] = e[1]
 	}
 
+	// the client may be gone / the deadline over by the time the failure is answered
+	if r.Chance(22) {
+		rq.Ctx = vf.Pick(r, []string{"cancelled", "cancelled-during", "cancelled-during", "deadline"})
+	}
+
 	// the header a request dependent redirect target is taken from: absent / empty / blanks / a URL
 	switch x := r.Intn(100); {
 	case x < 30:
@@ -623,6 +631,24 @@ func gen(r *vf.Rand) c12Case {
 	c.File = r.Chance(12)
 	c.Req = genReq(r)
 	c.E = genTree(r, r.Range(1, 6), odd, !c.R.Verbose)
+
+	// a request whose context is done typically fails BECAUSE of that: context.Canceled / DeadlineExceeded / a
+	// *url.Error somewhere in the chain of a failure of some kind
+	if c.Req.Ctx != "" && r.Chance(60) {
+		cause := node{K: "f", N: vf.Pick(r, []int{4, 5, 8, 16})}
+		if r.Chance(50) {
+			cause = node{K: "w", N: r.Intn(2), Sub: []node{cause}}
+		}
+
+		switch r.Intn(3) {
+		case 0:
+			c.E = node{K: "c", N: r.Intn(2), Sub: []node{c.E, cause}}
+		case 1:
+			c.E = node{K: "c", N: r.Intn(2), Sub: []node{{K: "s", Kind: vf.Pick(r, sentinelNames)}, cause}}
+		default:
+			c.E = node{K: "j", N: r.Intn(3), Sub: []node{cause, c.E}}
+		}
+	}
 
 	// configuration files: make the precondition override (finding C12-F4) and precondition failures frequent
 	if c.File && r.Chance(50) {
@@ -660,6 +686,12 @@ func gen(r *vf.Rand) c12Case {
 
 func get() reqDesc {
 	return reqDesc{Method: http.MethodGet, Path: "/verif", Remote: "192.0.2.1:1234", Extra: map[string]string{}}
+}
+
+func withCtx(r reqDesc, state string) reqDesc {
+	r.Ctx = state
+
+	return r
 }
 
 func getAccept(a ...string) reqDesc {
@@ -739,6 +771,15 @@ func corpus() []c12Case {
 		{Req: get(), E: authz, Sc: fail(mech{T: "www", Realm: "r", If: "false"}, mech{T: "redirect", To: "x", Fails: true}, mech{T: "default"})},
 		{Req: get(), E: authz, Sc: fail(mech{T: "default", If: "false"}, mech{T: "redirect", To: "http://idp", If: "true"})},
 		{Req: get(), E: authz, Sc: fail(mech{T: "default", If: "false"}, mech{T: "www", If: "false"})},
+		// the client is gone / the deadline is over and the failure says so: still the response of its kind, never the
+		// implicit 200 of a handler that writes nothing (seeded C12-9)
+		{Req: withCtx(get(), "cancelled"), E: node{K: "c", Sub: []node{{K: "s", Kind: "authn"}, {K: "f", N: 4}}}, Sc: fail()},
+		{Req: withCtx(get(), "cancelled-during"), E: node{K: "c", Sub: []node{{K: "s", Kind: "comm"}, {K: "w", Sub: []node{{K: "f", N: 4}}}}},
+			Sc: fail(mech{T: "default"})},
+		{Req: withCtx(get(), "deadline"), E: node{K: "w", Sub: []node{{K: "f", N: 5}}}, Sc: fail()},
+		{Req: withCtx(get(), "cancelled"), E: node{K: "f", N: 4}, Sc: scenario{T: "panic", PanicErr: true}},
+		{Req: withCtx(get(), "cancelled"), E: authz, Sc: scenario{T: "proxy", Proxy: "reset"}},
+		{Req: withCtx(get(), "cancelled-during"), E: authz, Sc: scenario{T: "proxy", Proxy: "timeout"}},
 		// the proxy's own Finalize fails
 		{Req: get(), E: authz, Sc: scenario{T: "proxy", Proxy: "noupstream"}},
 		{R: respond{Verbose: true}, Req: getAccept("text/plain"), E: authz, Sc: scenario{T: "proxy", Proxy: "reset"}},
@@ -946,6 +987,30 @@ func findDetails(tokens []string, places map[string]string) (bool, string) {
 	return false, ""
 }
 
+// context returns the request context in the state the case asks for, and the function that brings a
+// "cancelled-during" context into its final state (called by the executor, i.e. while the pipeline runs)
+func (rq reqDesc) context() (context.Context, func()) {
+	switch rq.Ctx {
+	case "cancelled":
+		ctx, cancel := context.WithCancel(context.Background())
+		cancel()
+
+		return ctx, func() {}
+	case "cancelled-during":
+		return context.WithCancel(context.Background())
+	case "deadline":
+		ctx, cancel := context.WithDeadline(context.Background(), time.Unix(1, 0))
+		_ = cancel
+
+		return ctx, func() {}
+	}
+
+	return context.Background(), func() {}
+}
+
+// duringHook is called by every executor of a case when it starts (cancels a "cancelled-during" context)
+var duringHook = func() {} //nolint:gochecknoglobals
+
 func (rq reqDesc) httpRequest() *http.Request {
 	req := httptest.NewRequest(rq.Method, "http://heimdall.local"+rq.Path, nil)
 	req.RemoteAddr = rq.Remote
@@ -1089,7 +1154,9 @@ func translateHTTP(opts []herr.Option, rq reqDesc, err error, tokens []string) (
 	}()
 
 	rec := httptest.NewRecorder()
-	herr.New(opts...).HandleError(rec, rq.httpRequest(), err)
+	ctx, finish := rq.context()
+	finish()
+	herr.New(opts...).HandleError(rec, rq.httpRequest().WithContext(ctx), err)
 
 	return recorded(rec, tokens)
 }
@@ -1101,7 +1168,10 @@ func translateGRPC(opts []gerr.Option, rq reqDesc, err error, tokens []string) (
 		}
 	}()
 
-	out, e := gerr.New(opts...)(context.Background(), rq.checkRequest(), nil,
+	ctx, finish := rq.context()
+	finish()
+
+	out, e := gerr.New(opts...)(ctx, rq.checkRequest(), nil,
 		func(context.Context, any) (any, error) { return nil, err })
 	if e != nil {
 		return statusErr(e, tokens)
@@ -1221,7 +1291,12 @@ func runHTTP(h http.Handler, rq reqDesc, tokens []string) (r res) {
 		}
 	}()
 
-	h.ServeHTTP(rec, rq.httpRequest())
+	ctx, finish := rq.context()
+	duringHook = finish
+
+	defer func() { duringHook = func() {} }()
+
+	h.ServeHTTP(rec, rq.httpRequest().WithContext(ctx))
 
 	return recorded(rec, tokens)
 }
@@ -1476,7 +1551,12 @@ func run(c c12Case) obs {
 
 	var rec [][2]string
 
-	exec := executorFor(c, err, &rec)
+	inner := executorFor(c, err, &rec)
+	exec := execFunc(func(ctx heimdall.Context) (rule.Backend, error) {
+		duringHook()
+
+		return inner.Execute(ctx)
+	})
 	notrun := res{Kind: "notrun"}
 
 	if c.Sc.T == "proxy" {
@@ -1633,7 +1713,7 @@ func coqCase(c c12Case, o obs) string {
 func tags(c c12Case, o obs) []string {
 	t := []string{"scenario:" + c.Sc.T, fmt.Sprintf("depth:%d", depth(c.E)), fmt.Sprintf("verbose:%v", c.R.Verbose),
 		"method:" + c.Req.Method, fmt.Sprintf("accept-lines:%d", len(c.Req.Accept)), fmt.Sprintf("from-config-file:%v", c.File),
-		fmt.Sprintf("accept-free:%v", o.Or.Free)}
+		fmt.Sprintf("accept-free:%v", o.Or.Free), "request-context:" + map[bool]string{true: "live", false: c.Req.Ctx}[c.Req.Ctx == ""]}
 
 	if c.Sc.T == "fail" {
 		t = append(t, fmt.Sprintf("handlers:%d", len(c.Sc.Hs)))
